@@ -83,7 +83,8 @@ func dataBundle(src, dst string, seq uint64, opts ...func(*bpv7.BundleBuilder)) 
 	if err != nil {
 		verif.Assert(false, "bundle builds")
 	}
-	b.PrimaryBlock.CreationTimestamp = bpv7.NewCreationTimestamp(b.PrimaryBlock.CreationTimestamp.DtnTime(), seq)
+	// every test bundle is created in the millisecond at which the frozen clock starts
+	b.PrimaryBlock.CreationTimestamp = bpv7.NewCreationTimestamp(bpv7.DtnTime(311209200000), seq)
 	return b
 }
 
